@@ -18,6 +18,7 @@ MODULE = "CddVerif.Properties.C07"
 THEOREMS = [
     "C07.frame_residue",
     "C07.frame_sublist",
+    "C07.frame_other_nodes",
     "C07.frame_comments",
     "C07.frame_other_text",
     "C07.parser_docstr_only_after_def",
@@ -32,12 +33,13 @@ THEOREMS = [
     "C07.header_outside_parens_preserved",
     "C07.header_locate_canonical",
     "C07.header_resynth_partial",
+    "C07.header_return_paren_preserved",
     "C07.header_not_full_default",
     "C07.header_not_full_vararg",
     "C07.header_not_full_kwonly",
     "C07.header_not_full_kwarg",
     "C07.header_not_full_posonly",
-    "C07.header_return_paren_preserved",
+    "C07.header_return_not_preserved_stray_arrow",
 ]
 CONFIGS = [(fmt, ta, nww) for fmt in ("rest", "google", "numpydoc") for ta in (True, False) for nww in (None, True)]
 
@@ -78,6 +80,7 @@ def edits_of(node):
              "body0": body0_of(n)}
         if is_func:
             e["args"] = pyast.args_to_json(n.args)
+            e["args_text"] = ast.unparse(n.args)
             e["returns"] = None if n.returns is None else ast.unparse(n.returns)
         out.append(e)
     return out
@@ -88,16 +91,17 @@ def node_json(n):
             "is_double_q": getattr(n, "is_double_q", None), "is_docstr": getattr(n, "is_docstr", None)}
 
 
-def parse_header(key: str):
+def parse_header(key: str, value=None):
     """CPython's parse of a re-indented header with a `pass` body — the oracle the model takes as a parameter."""
     from cdd.shared.source_transformer import ast_parse
 
     try:
         n = ast_parse(key, skip_annotate=True, skip_docstring_remit=True).body[0]
         _ = n.body
-        return {"key": key, "sig": {"args": pyast.args_to_json(n.args), "returns": None if n.returns is None else ast.unparse(n.returns)}}
+        return {"key": key, "value": value, "sig": {"args": pyast.args_to_json(n.args), "returns": None if n.returns is None else ast.unparse(n.returns)},
+                "args_text": ast.unparse(n.args)}
     except Exception as e:  # noqa
-        return {"key": key, "error": type(e).__name__}
+        return {"key": key, "value": value, "error": type(e).__name__}
 
 
 class _Events:
@@ -148,6 +152,15 @@ class _Events:
 
 
 def impl_one(case):
+    try:
+        return _impl_one(case)
+    except BaseException as e:  # noqa
+        import traceback
+
+        return {"harness_error": traceback.format_exc()[-1500:]}
+
+
+def _impl_one(case):
     """Run the real `cdd.compound.doctrans.doctrans` on a temp file; record the before/after bytes, the effect trace, the new AST's
     definitions (the model's `FnEdit`s), the CST before/after the splice, the header parses."""
     import contextlib
@@ -162,7 +175,23 @@ def impl_one(case):
     rec = {"edits": None, "nodes_before": None, "nodes_after": None, "splice_error": None, "new_ast": None, "orig_ast": None, "edit_error": None}
     ev = _Events()
     real_dcst = DU.doctransify_cst
-    real_DocTrans = DU.DocTrans
+    real_DocTrans = D.DocTrans
+    real_fml = D.fix_missing_locations
+
+    def wrapped_DocTrans(*a, **kw):
+        try:
+            rec["orig_ast"] = pyast.module_to_json(kw["whole_ast"])
+        except Exception:  # noqa
+            rec["orig_ast"] = None
+        return real_DocTrans(*a, **kw)
+
+    def wrapped_fml(node):
+        out = real_fml(node)
+        try:
+            rec["new_ast"] = pyast.module_to_json(out)
+        except Exception:  # noqa
+            rec["new_ast"] = None
+        return out
 
     def wrapped_dcst(cst_list, node):
         rec["nodes_before"] = [node_json(n) for n in cst_list]
@@ -170,10 +199,6 @@ def impl_one(case):
             rec["edits"] = edits_of(node)
         except Exception as e:  # noqa
             rec["edit_error"] = type(e).__name__
-        try:
-            rec["new_ast"] = pyast.module_to_json(node)
-        except Exception as e:  # noqa
-            rec["new_ast"] = None
         try:
             real_dcst(cst_list, node)
         except BaseException as e:  # noqa
@@ -187,6 +212,8 @@ def impl_one(case):
         if case.get("missing"):
             os.unlink(p)
         D.doctransify_cst = wrapped_dcst
+        D.DocTrans = wrapped_DocTrans
+        D.fix_missing_locations = wrapped_fml
         D.open = ev.opener(open)
         err = None
         try:
@@ -196,6 +223,8 @@ def impl_one(case):
             err = type(e).__name__
         finally:
             D.doctransify_cst = real_dcst
+            D.DocTrans = real_DocTrans
+            D.fix_missing_locations = real_fml
             del D.open
         after = None
         if os.path.exists(p):
@@ -212,7 +241,7 @@ def impl_one(case):
                     k = reindent_block_with_pass_body(n["value"])
                     if k not in seen:
                         seen.add(k)
-                        parses.append(parse_header(k))
+                        parses.append(parse_header(k, n["value"]))
         return {"after": after, "error": err, "trace": ev.ev, "entered": entered, "parses": parses, **rec}
     finally:
         shutil.rmtree(d, ignore_errors=True)
@@ -221,20 +250,24 @@ def impl_one(case):
 # ------------------------------------------------------------------------------------------------
 # the property's oracle, on the real before / after files
 # ------------------------------------------------------------------------------------------------
+DEF_KINDS = ("FunctionDefinitionStart", "ClassDefinitionStart")
+PRIORITY = ["unaligned", "stray-arrow", "same-line-tail", "indent-under-4", "header-last-node", "async-docstring-removed", "header-resynth",
+            "docstring-removed", "return-type-changed"]
+
+
 def comments_of(src: str):
     return [t.string for t in tokenize.generate_tokens(io.StringIO(src).readline) if t.type == tokenize.COMMENT]
 
 
 def header_and_doc_lines(src: str, tree: ast.Module):
-    """1-based line numbers belonging to a `def`/`class` header (from the `def`/`class` keyword line to the line of its colon) or to a
-    docstring of a function / class."""
+    """1-based line numbers belonging to a `def`/`class` header (from the keyword line to the line of its colon) or to a docstring of a
+    function / class."""
     hdr, doc = set(), set()
     toks = list(tokenize.generate_tokens(io.StringIO(src).readline))
-    # header end: first ':' at bracket depth 0 after the keyword
-    starts = {}
+    starts = set()
     for n in ast.walk(tree):
         if isinstance(n, (ast.FunctionDef, ast.AsyncFunctionDef, ast.ClassDef)):
-            starts[(n.lineno, n.col_offset)] = n
+            starts.add((n.lineno, n.col_offset))
             if n.body and isinstance(n.body[0], ast.Expr) and isinstance(n.body[0].value, ast.Constant) and isinstance(n.body[0].value.value, str):
                 doc.update(range(n.body[0].lineno, n.body[0].end_lineno + 1))
     i = 0
@@ -259,12 +292,16 @@ def header_and_doc_lines(src: str, tree: ast.Module):
     return hdr, doc
 
 
+def _is_doc_stmt(s):
+    return isinstance(s, ast.Expr) and isinstance(s.value, ast.Constant) and isinstance(s.value.value, str)
+
+
 def erase(tree: ast.AST) -> ast.AST:
     """Remove docstrings of functions / classes, parameter / return / variable annotations and type comments."""
 
     class E(ast.NodeTransformer):
         def _body(self, node):
-            if node.body and isinstance(node.body[0], ast.Expr) and isinstance(node.body[0].value, ast.Constant) and isinstance(node.body[0].value.value, str):
+            if node.body and _is_doc_stmt(node.body[0]):
                 node.body = node.body[1:]
             return node
 
@@ -288,7 +325,7 @@ def erase(tree: ast.AST) -> ast.AST:
         def visit_AnnAssign(self, node):
             self.generic_visit(node)
             if node.value is None:
-                return ast.Expr(value=ast.Name(id="__declare__%s" % ast.unparse(node.target), ctx=ast.Load()))
+                return ast.Expr(value=ast.Name(id="__declare__", ctx=ast.Load()))
             return ast.Assign(targets=[node.target], value=node.value, type_comment=None)
 
         def visit_Assign(self, node):
@@ -315,37 +352,185 @@ def _defs(tree):
     return out
 
 
-def ast_diff_sigs(before: ast.Module, after: ast.Module):
-    """Where do the erased trees differ?  -> list of (field, detail, resynth?) per differing definition field (or one 'module' entry)."""
-    b, a = _defs(before), _defs(after)
+def _own_body_dump(n):
+    """dump of a definition's (erased) body with nested definitions replaced by placeholders"""
+
+    class P(ast.NodeTransformer):
+        def visit_FunctionDef(self, node):
+            return ast.Expr(value=ast.Name(id="__def__%s" % node.name, ctx=ast.Load()))
+
+        visit_AsyncFunctionDef = visit_FunctionDef
+        visit_ClassDef = visit_FunctionDef
+
+    import copy
+
+    return [ast.dump(P().visit(copy.deepcopy(s))) for s in n.body]
+
+
+def ast_diff(before_erased: ast.Module, after_erased: ast.Module):
+    """Where do the erased trees differ?  -> list of (field, path or None, lineno of the definition in the before file or None, resynth?)."""
+    b, a = _defs(before_erased), _defs(after_erased)
     if [(p, type(n).__name__) for p, n in b] != [(p, type(n).__name__) for p, n in a]:
-        return [("definitions", "%s -> %s" % ([".".join(p) for p, _ in b], [".".join(p) for p, _ in a]), False)]
+        k = next((i for i, (x, y) in enumerate(zip(b, a)) if (x[0], type(x[1]).__name__) != (y[0], type(y[1]).__name__)), min(len(b), len(a)))
+        parent = b[k][0][:-1] if k < len(b) else (a[k][0][:-1] if k < len(a) else [])
+        pn = next((n for p, n in b if p == parent), None)
+        return [("definitions", parent or None, getattr(pn, "lineno", None), False)]
     out = []
+    dl = lambda xs: [None if x is None else ast.dump(x) for x in xs]
     for (p, nb), (_, na) in zip(b, a):
         if isinstance(nb, ast.ClassDef):
             for f in ("bases", "keywords", "decorator_list"):
-                if ast.dump(ast.Module(body=[], type_ignores=[]) if False else ast.Tuple(elts=getattr(nb, f), ctx=ast.Load())) != ast.dump(ast.Tuple(elts=getattr(na, f), ctx=ast.Load())):
-                    out.append((f, ".".join(p), False))
-            continue
-        ab, aa = nb.args, na.args
-        # was the parameter list re-synthesised as `name[: annotation]` of `args.args` only?
-        resynth = (not aa.defaults and not aa.kw_defaults and not aa.kwonlyargs and aa.vararg is None and aa.kwarg is None and not aa.posonlyargs
-                   and [x.arg for x in aa.args] == [x.arg for x in ab.args])
-        for f in ("posonlyargs", "args", "kwonlyargs"):
-            if [x.arg for x in getattr(ab, f)] != [x.arg for x in getattr(aa, f)]:
-                out.append((f, ".".join(p), resynth))
-        for f in ("vararg", "kwarg"):
-            if (getattr(ab, f) and getattr(ab, f).arg) != (getattr(aa, f) and getattr(aa, f).arg):
-                out.append((f, ".".join(p), resynth))
-        for f in ("defaults", "kw_defaults"):
-            if [None if x is None else ast.dump(x) for x in getattr(ab, f)] != [None if x is None else ast.dump(x) for x in getattr(aa, f)]:
-                out.append((f, ".".join(p), resynth))
-        if [ast.dump(x) for x in nb.decorator_list] != [ast.dump(x) for x in na.decorator_list]:
-            out.append(("decorator_list", ".".join(p), False))
+                if dl(getattr(nb, f)) != dl(getattr(na, f)):
+                    out.append((f, p, nb.lineno, False))
+        else:
+            ab, aa = nb.args, na.args
+            resynth = (not aa.defaults and not aa.kw_defaults and not aa.kwonlyargs and aa.vararg is None and aa.kwarg is None and not aa.posonlyargs
+                       and [x.arg for x in aa.args] == [x.arg for x in ab.args])
+            for f in ("posonlyargs", "args", "kwonlyargs"):
+                if [x.arg for x in getattr(ab, f)] != [x.arg for x in getattr(aa, f)]:
+                    out.append((f, p, nb.lineno, resynth))
+            for f in ("vararg", "kwarg"):
+                if (getattr(ab, f) and getattr(ab, f).arg) != (getattr(aa, f) and getattr(aa, f).arg):
+                    out.append((f, p, nb.lineno, resynth))
+            for f in ("defaults", "kw_defaults"):
+                if dl(getattr(ab, f)) != dl(getattr(aa, f)):
+                    out.append((f, p, nb.lineno, resynth))
+            if dl(nb.decorator_list) != dl(na.decorator_list):
+                out.append(("decorator_list", p, nb.lineno, False))
+        if _own_body_dump(nb) != _own_body_dump(na):
+            out.append(("statements", p, nb.lineno, False))
+    class _M:  # module level
+        pass
+    mb, ma = ast.Module(body=before_erased.body, type_ignores=[]), ast.Module(body=after_erased.body, type_ignores=[])
+    if _own_body_dump(mb) != _own_body_dump(ma):
+        out.append(("statements", None, None, False))
     if not out:
-        # bodies / module level
-        out.append(("statements", "erased trees differ outside signatures", False))
+        out.append(("unknown", None, None, False))
     return out
+
+
+def _lead_ws(value: str) -> int:
+    s = value.lstrip("\n")
+    return len(s) - len(s.lstrip())
+
+
+def align(nb, na, parses):
+    """Align the real CST before / after the splice (the frame property makes this possible) -> list of changes:
+    {what, start, end (after-file line numbers of the changed text), hdr (the header node it belongs to), flags}."""
+    returns_of = {}
+    for pr in parses or []:
+        returns_of[pr.get("value")] = ("sig" in pr and pr["sig"]["returns"] is not None)
+    isdef = lambda n: n is not None and n["kind"] in DEF_KINDS
+    isdoc = lambda n: n is not None and n["kind"] == "TripleQuoted" and bool(n["is_docstr"])
+    out = []
+    i = j = 0
+    line = 1
+    hdr = None
+
+    def span(y):
+        return line + (1 if y["value"].startswith("\n") else 0), line + y["value"].count("\n")
+
+    def doc_flags(src_node):
+        if src_node is None:
+            return ["header-last-node"]
+        fl = []
+        if not src_node["value"].startswith("\n"):
+            fl.append("same-line-tail")
+        if _lead_ws(src_node["value"]) < 4:
+            fl.append("indent-under-4")
+        return fl
+
+    while i < len(nb) or j < len(na):
+        x = nb[i] if i < len(nb) else None
+        y = na[j] if j < len(na) else None
+        if x is not None and x == y:
+            hdr = x if isdef(x) else None
+            line += y["value"].count("\n")
+            i += 1
+            j += 1
+            continue
+        if isdef(x) and isdef(y) and all(x[k] == y[k] for k in ("kind", "name", "start", "stop")):
+            fl = []
+            real_arrows = 1 if returns_of.get(x["value"]) else 0
+            if x["value"].count("->") > real_arrows:
+                fl.append("stray-arrow")
+            bp, ap = x["value"][: max(x["value"].rfind(")"), 0)], y["value"][: max(y["value"].rfind(")"), 0)]
+            fl.append("header-resynth" if bp != ap else "return-type-changed")
+            s, e = span(y)
+            out.append({"what": "header", "start": s, "end": e, "hdr": x, "flags": fl, "before": x["value"], "after": y["value"], "op": (i, 1, [y])})
+            hdr = x
+            line += y["value"].count("\n")
+            i += 1
+            j += 1
+            continue
+        if hdr is not None and isdoc(x) and isdoc(y):
+            s, e = span(y)
+            out.append({"what": "doc-replaced", "start": s, "end": e, "hdr": hdr, "flags": doc_flags(x), "op": (i, 1, [y])})
+            line += y["value"].count("\n")
+            i += 1
+            j += 1
+            continue
+        if hdr is not None and isdoc(y):
+            s, e = span(y)
+            out.append({"what": "doc-added", "start": s, "end": e, "hdr": hdr, "flags": doc_flags(x), "op": (i, 0, [y])})
+            line += y["value"].count("\n")
+            j += 1
+            continue
+        if hdr is not None and isdoc(x):
+            import re
+
+            out.append({"what": "doc-removed", "start": line, "end": line, "hdr": hdr, "op": (i, 1, []),
+                        "flags": ["async-docstring-removed" if re.search(r"\basync\s+def\b", hdr["value"]) else "docstring-removed"]})
+            i += 1
+            continue
+        out.append({"what": "unaligned", "start": line, "end": line, "hdr": hdr, "flags": ["unaligned"]})
+        break
+    return out
+
+
+def _first_flag(flags):
+    for f in PRIORITY:
+        if f in flags:
+            return f
+    return "none"
+
+
+def cause_at_line(changes, line):
+    prior = [c for c in changes if c["start"] <= line]
+    c = max(prior, key=lambda c: c["start"]) if prior else (changes[0] if changes else None)
+    return _first_flag(c["flags"]) if c else "none"
+
+
+def text_with(nb, changes, k):
+    """the file text after applying only the first `k` changes of the alignment to the CST `nb`"""
+    out, pos = [], 0
+    for c in changes[:k]:
+        if "op" not in c:
+            break
+        i, nrem, new = c["op"]
+        out += [n["value"] for n in nb[pos:i]] + [n["value"] for n in new]
+        pos = i + nrem
+    out += [n["value"] for n in nb[pos:]]
+    return "".join(out)
+
+
+def cause_of_invalid(nb, changes):
+    """Apply the changes one after the other: the first one after which the file no longer parses is the cause."""
+    for k in range(1, len(changes) + 1):
+        try:
+            ast.parse(text_with(nb, changes, k))
+        except (SyntaxError, ValueError):
+            return _first_flag(changes[k - 1]["flags"])
+    return "none"
+
+
+def cause_for_def(changes, name, lineno):
+    fl = []
+    for c in changes:
+        h = c["hdr"]
+        if h is not None and h["name"] == name and lineno is not None and h["start"] <= lineno <= h["stop"]:
+            fl += c["flags"]
+    return _first_flag(fl)
 
 
 def oracle(src: str, r: dict):
@@ -353,81 +538,380 @@ def oracle(src: str, r: dict):
     fails = []
     after, err = r["after"], r["error"]
     if err is not None:
-        if after != src:
+        if after != src and not (r.get("missing") and after is None):
             fails.append(({"clause": "atomic", "error": err}, "doctrans raised %s and left the file changed" % err))
         return fails
     if after == src:
         return fails
     try:
         tb = ast.parse(src)
-    except SyntaxError:
-        return fails  # not a program of the property's domain
+    except (SyntaxError, ValueError):
+        fails.append(({"clause": "atomic", "error": "none"}, "the input is not valid Python, yet doctrans rewrote the file"))
+        return fails
+    changes = align(r["nodes_before"], r["nodes_after"], r.get("parses")) if r.get("nodes_before") is not None and r.get("nodes_after") is not None else []
     try:
         ta = ast.parse(after)
-    except SyntaxError as e:
-        fails.append(({"clause": "valid-python", "cause": classify_invalid(src, after, r)}, "output is not valid Python: %s (line %s)" % (e.msg, e.lineno)))
+    except (SyntaxError, ValueError) as e:
+        ln = getattr(e, "lineno", None) or 1
+        fails.append(({"clause": "valid-python", "cause": cause_of_invalid(r["nodes_before"], changes) if changes else "none"},
+                      "output is not valid Python: %s (line %s)" % (getattr(e, "msg", e), ln)))
         return fails
     eb, ea = erase(ast.parse(src)), erase(ast.parse(after))
     if ast.dump(eb) != ast.dump(ea):
-        for field, detail, resynth in ast_diff_sigs(eb, ea):
-            fails.append(({"clause": "ast-erase", "field": field, "cause": "header-resynth" if resynth else "other"},
-                          "syntax tree differs after erase: %s of %s" % (field, detail)))
+        for field, path, lineno, resynth in ast_diff(eb, ea):
+            cause = "header-resynth" if resynth else (cause_for_def(changes, path[-1], lineno) if path else "none")
+            fails.append(({"clause": "ast-erase", "field": field, "cause": cause},
+                          "syntax tree differs after erase: %s of %s" % (field, ".".join(path) if path else "<module>")))
     cb, ca = comments_of(src), comments_of(after)
     if cb != ca:
-        hb, _ = header_and_doc_lines(src, tb)
-        lost_in_header = comment_loss_in_headers(src, cb, ca, hb)
-        fails.append(({"clause": "comments", "where": "multiline-header" if lost_in_header else "other"}, "comment list differs: %r -> %r" % (cb[:8], ca[:8])))
+        fails.append(({"clause": "comments", "cause": comment_cause(cb, ca, changes)}, "comment list differs: %r -> %r" % (cb[:8], ca[:8])))
     hb, db = header_and_doc_lines(src, tb)
     ha, da = header_and_doc_lines(after, ta)
-    lb = [l for i, l in enumerate(src.split("\n"), 1) if i not in hb and i not in db]
-    la = [l for i, l in enumerate(after.split("\n"), 1) if i not in ha and i not in da]
-    if lb != la:
-        k = next((i for i, (x, y) in enumerate(zip(lb, la)) if x != y), min(len(lb), len(la)))
-        fails.append(({"clause": "lines", "cause": classify_line_diff(lb, la, k)},
-                      "line outside headers/docstrings differs: %r -> %r" % (lb[k:k + 2], la[k:k + 2])))
+    lb = [(i, l) for i, l in enumerate(src.split("\n"), 1) if i not in hb and i not in db]
+    la = [(i, l) for i, l in enumerate(after.split("\n"), 1) if i not in ha and i not in da]
+    if [l for _, l in lb] != [l for _, l in la]:
+        k = next((i for i, (x, y) in enumerate(zip(lb, la)) if x[1] != y[1]), min(len(lb), len(la)))
+        ln = la[k][0] if k < len(la) else (la[-1][0] if la else 1)
+        fails.append(({"clause": "lines", "cause": cause_at_line(changes, ln)},
+                      "line outside headers/docstrings differs: %r -> %r" % ([l for _, l in lb[k:k + 2]], [l for _, l in la[k:k + 2]])))
     return fails
 
 
-def comment_loss_in_headers(src, cb, ca, hdr_lines):
-    """True when `ca` is `cb` minus comments that sit on lines of a multi-line definition header."""
-    toks = [t for t in tokenize.generate_tokens(io.StringIO(src).readline) if t.type == tokenize.COMMENT]
-    keep = [t.string for t in toks if t.start[0] not in hdr_lines]
-    # comments on the *last* header line (after the colon) survive; allow any subset of header comments to be lost
+def comment_cause(cb, ca, changes):
+    """`header-resynth` when the after-list is the before-list minus comments that stood inside re-synthesised headers."""
     it = iter(cb)
-    if not all(any(x == y for y in it) for x in ca):
-        return False
-    it2 = iter(ca)
-    return all(any(x == y for y in it2) for x in keep)
+    if not all(any(x == y for y in it) for x in ca):  # `ca` must be a subsequence of `cb`
+        return "none"
+    from collections import Counter
+
+    lost = Counter(cb) - Counter(ca)
+    in_hdr = Counter()
+    for c in changes:
+        if c["what"] == "header" and "header-resynth" in c["flags"]:
+            for cm in comments_in_text(c["before"]):
+                in_hdr[cm] += 1
+            for cm in comments_in_text(c["after"]):
+                in_hdr[cm] -= 1
+    return "header-resynth" if all(in_hdr[k] >= v for k, v in lost.items()) else "none"
 
 
-def classify_line_diff(lb, la, k):
-    x = lb[k] if k < len(lb) else None
-    y = la[k] if k < len(la) else None
-    if y is not None and y.strip() in ('"""', "'''") or x is not None and x.strip() in ('"""', "'''"):
-        return "docstring-quote-line"
-    if x is not None and y is not None and x.strip() == y.strip():
-        return "whitespace"
-    return "other"
-
-
-def classify_invalid(src, after, r):
-    """Narrow cause of an invalid output, from the recorded edits."""
+def comments_in_text(text):
+    out = []
     try:
-        tb = ast.parse(src)
-    except SyntaxError:
-        return "input-invalid"
-    # a definition whose whole body was its docstring, and the docstring was removed
-    for n in ast.walk(tb):
-        if isinstance(n, ast.AsyncFunctionDef) and len(n.body) == 1 and isinstance(n.body[0], ast.Expr) and isinstance(n.body[0].value, ast.Constant) \
-                and isinstance(n.body[0].value.value, str):
-            return "async-docstring-only-body-deleted"
-    return "other"
+        for t in tokenize.generate_tokens(io.StringIO(text.lstrip("\n") + " pass\n").readline):
+            if t.type == tokenize.COMMENT:
+                out.append(t.string)
+    except (tokenize.TokenError, IndentationError, SyntaxError):
+        import re
+
+        out += [m.group(0).rstrip() for m in re.finditer(r"#[^\n]*", text)]
+    return out
+
+
+# ------------------------------------------------------------------------------------------------
+# cases
+# ------------------------------------------------------------------------------------------------
+REST_DOC = '    """\n    Doc.\n\n    :param a: the a\n    :type a: ```int```\n    """\n'
+
+# Witnesses: (id, expected finding id or None, source, (fmt, ta, nww), expected header line in the output or None)
+WITNESSES = [
+    ("w-default", ["C07-resynth-defaults"], "def f(a=1):\n" + REST_DOC + "    pass\n", ("rest", True, None), "def f(a: int):"),
+    ("w-vararg", ["C07-resynth-vararg"], "def f(a, *b):\n" + REST_DOC + "    pass\n", ("rest", True, None), "def f(a: int):"),
+    ("w-kwonly", ["C07-resynth-kwonly"], "def f(a, *, b):\n" + REST_DOC + "    pass\n", ("rest", True, None), "def f(a: int):"),
+    ("w-kwdefault", ["C07-resynth-kwonly", "C07-resynth-kwdefaults"], "def f(a, *, b=2):\n" + REST_DOC + "    pass\n", ("rest", True, None), None),
+    ("w-kwarg", ["C07-resynth-kwarg"], "def f(a, **b):\n" + REST_DOC + "    pass\n", ("rest", True, None), "def f(a: int):"),
+    ("w-posonly", ["C07-resynth-posonly"], "def f(a, /, b):\n" + REST_DOC.replace(" a", " b") + "    pass\n", ("rest", True, None), "def f(b: int):"),
+    ("w-ret-paren", [], "def f(a) -> T[()]:\n" + REST_DOC + "    pass\n", ("rest", True, None), "def f(a: int) -> T[()]:"),
+    ("w-stray-arrow", ["C07-stray-arrow"], 'def f(a) -> "g(x) -> y":\n' + REST_DOC + "    pass\n", ("rest", True, None), 'def f(a: int) -> y":'),
+    ("w-header-comment", ["C07-resynth-comment"], "def f(\n    a,  # first\n):\n" + REST_DOC + "    pass\n", ("rest", True, None), "def f(a: int):"),
+    ("w-tail-comment", ["C07-tail-invalid"], "def g(a):  # c\n    return a\n", ("rest", False, None), None),
+    ("w-tail-docstring", ["C07-tail-statements", "C07-tail-lines"], 'def g(a):  # c\n  """Doc.\n\n  :param a: the a\n  :type a: ```int```\n  """\n  return a\n',
+     ("rest", True, None), None),
+    ("w-indent2", ["C07-indent-invalid"], 'def g(a):\n  """\n  Doc.\n\n  :param a: the a\n  :type a: ```int```\n  """\n  return a\n', ("rest", True, None), None),
+    ("w-async-sole", ["C07-async-sole-docstring"], 'async def g(a):\n    """Doc."""\n\ndef h(a):\n' + REST_DOC + "    return a\n", ("rest", True, None), None),
+    ("w-stub-atomic", [], "def s(a): ...\n\ndef h(a):\n" + REST_DOC + "    return a\n", ("rest", True, None), None),
+]
+
+MALFORMED = ["def f(:\n    pass\n", "class\n", "def f():\nreturn 1\n", "x = (\n", '"""unterminated\n', "def f(a):\n\t pass\n        pass\n", "\x00", "def f(a) -> :\n  pass\n",
+             "async def\n", "@\ndef f(): pass\n", "lambda: (yield)\n  x\n"]
+
+
+def gen_cases(chk: core.Check):
+    rng = chk.rng
+    cases = []
+
+    def add(src, cfg, kind, feats=(), **kw):
+        cases.append({"src": src, "fmt": cfg[0], "ta": cfg[1], "nww": cfg[2], "kind": kind, "feats": list(feats), **kw})
+
+    for wid, _, src, cfg, _ in WITNESSES:
+        add(src, cfg, "witness", [wid], wid=wid)
+    n_single, n_grid, n_fail, n_mut = (900, 60, 150, 120) if chk.quick else (9000, 900, 1500, 1500)
+    for _ in range(n_single):
+        src, feats = c07mod.gen_module(rng)
+        add(src, rng.choice(CONFIGS), "structured", feats)
+    for _ in range(n_grid):
+        src, feats = c07mod.gen_module(rng)
+        for cfg in CONFIGS:
+            add(src, cfg, "structured-grid", feats)
+    for _ in range(n_fail):
+        src, feats = c07mod.with_failure(rng)
+        add(src, rng.choice(CONFIGS), "failure-injection", feats)
+    # malformed stream: not Python at all, byte-level mutants of generated modules, a missing file
+    for m in MALFORMED:
+        add(m, rng.choice(CONFIGS), "malformed", ["malformed"])
+    for _ in range(n_mut):
+        src, feats = c07mod.gen_module(rng)
+        s = list(src)
+        for _ in range(rng.randint(1, 4)):
+            if s:
+                i = rng.randrange(len(s))
+                tok = rng.choice(["(", ")", ":", '"""', "'", "\n", "    ", "\t", "#", "->", "\\", "def ", "=", ",", "*", "[", "]", " "])
+                if rng.random() < 0.5:
+                    s[i:i] = list(tok)
+                else:
+                    del s[i:i + rng.randint(1, 4)]
+        add("".join(s), rng.choice(CONFIGS), "mutant", ["mutant"])
+    add("x = 1\n", CONFIGS[0], "missing-file", ["missing"], missing=True)
+    return cases
+
+
+# ------------------------------------------------------------------------------------------------
+# model requests
+# ------------------------------------------------------------------------------------------------
+def trace_request(c, r):
+    if c.get("missing"):
+        return {"op": "c07.doctrans", "src": "", "read_error": r["error"] or "none", "changed": False, "edits": [], "parses": []}
+    if r["error"] is not None and not r["entered"]:
+        return {"op": "c07.doctrans", "src": c["src"], "ast_error": r["error"], "changed": False, "edits": [], "parses": []}
+    return {"op": "c07.doctrans", "src": c["src"], "changed": bool(r["entered"]), "edits": r["edits"] or [], "parses": list(r["parses"])}
+
+
+def with_oracle_retries(reqs, get_miss):
+    """Run a batch; a request whose header-parse table lacks a key gets that key added (computed by CPython) and is re-run."""
+    out = core.model_batch(reqs)
+    for _ in range(6):
+        redo = []
+        for k, (q, m) in enumerate(zip(reqs, out)):
+            key = get_miss(m)
+            if key is not None:
+                q["parses"].append(parse_header(key))
+                redo.append(k)
+        if not redo:
+            break
+        new = core.model_batch([reqs[k] for k in redo])
+        for k, m in zip(redo, new):
+            out[k] = m
+    return out
+
+
+def _miss_splice(m):
+    x = m.get("raises", "")
+    return x[len("oracle-miss:"):] if x.startswith("oracle-miss:") else None
+
+
+def _miss_trace(m):
+    x = m.get("result", "")
+    return x[len("raises:oracle-miss:"):] if x.startswith("raises:oracle-miss:") else None
+
+
+def ast_request(c, r):
+    """AST-level op: the decisions (new docstring / annotations / return type per function) are read off the real output."""
+    orig, new = r.get("orig_ast"), r.get("new_ast")
+    if orig is None or new is None:
+        return None
+    docs, ptys, rtys = {}, {}, {}
+    seen = set()
+    dup = [False]
+
+    def walk(stmts, path):
+        for s in stmts:
+            if s["k"] in ("fn", "cls"):
+                p = ".".join(path + [s["name"]])
+                if p in seen:
+                    dup[0] = True
+                seen.add(p)
+                if s["k"] == "fn" and not s["async"]:
+                    if s["body"] and s["body"][0]["k"] == "str":
+                        docs[p] = s["body"][0]["s"]
+                    ptys[p] = {a["name"]: a["ann"] for a in s["args"]["args"] if a["ann"] is not None}
+                    rtys[p] = s["returns"]
+                walk(s["body"], path + [s["name"]])
+
+    walk(new, [])
+    if dup[0]:
+        return None
+    return {"op": "c07.doctrans_ast", "module": orig, "type_annotations": bool(c["ta"]), "new_doc": docs, "param_typ": ptys, "return_typ": rtys}
 
 
 # ------------------------------------------------------------------------------------------------
 def run(chk: core.Check) -> int:
-    raise core.HarnessError("not finished")
+    chk.lean(MODULE, THEOREMS)
+    chk.trusted_base += [
+        "hand-written models lean/CddVerif/Model/DocTransCst.lean (find_cst_at_ast, maybe_replace_doc_str_in_function_or_class, maybe_replace_function_return_type, "
+        "maybe_replace_function_args, get_doc_str, reindent_block_with_pass_body, doctransify_cst, doctrans as an effect trace) and Model/DocTransAst.lean (DocTrans on the flat AST), "
+        "tied to the code by exact comparison of node lists / written bytes / effect traces / AST JSON",
+        "CPython's ast.parse of the re-indented header (`ast_parse(...).body[0]`) is an oracle parameter of the model; expressions are compared and printed through ast.unparse",
+        "the AST-level stage (ast_parse, DocTrans.visit, fix_missing_locations, cmp_ast) enters the CST model only through the recorded definitions of the new tree (FnEdit); "
+        "harness/props/c07.py:edits_of re-implements the `walk`/`hasattr(_location)`/`isinstance` filter of doctransify_cst",
+        "ast.parse line numbers link AST and CST; IO errors during the final write are outside the model",
+        "model of lean/CddVerif/Model/Cst.lean (C09) for cst_parse",
+    ]
+    if not core.DRIVER.exists():
+        raise core.HarnessError("Lean driver not built")
+    cases = gen_cases(chk)
+    res = core.pmap(impl_one, cases, chunksize=16)
+    for c, r in zip(cases, res):
+        if "harness_error" in r:
+            raise core.HarnessError("impl_one failed on a %s case: %s" % (c["kind"], r["harness_error"]))
+        r["missing"] = bool(c.get("missing"))
+
+    # ---- model runs ---------------------------------------------------------------------------------------------
+    usable = [k for k, r in enumerate(res) if r["edit_error"] is None]
+    splice_idx = [k for k in usable if res[k]["entered"]]
+    splice_out = with_oracle_retries([{"op": "c07.splice", "nodes": res[k]["nodes_before"], "edits": res[k]["edits"], "parses": list(res[k]["parses"])}
+                                      for k in splice_idx], _miss_splice)
+    trace_out = with_oracle_retries([trace_request(cases[k], res[k]) for k in usable], _miss_trace)
+    ast_reqs = [(k, ast_request(cases[k], res[k])) for k in usable]
+    ast_reqs = [(k, q) for k, q in ast_reqs if q is not None]
+    ast_out = core.model_batch([q for _, q in ast_reqs])
+    sigs, reind = {}, {}
+    for r in res:
+        for e in r["edits"] or []:
+            if "args" in e:
+                sigs[json.dumps(e["args"], sort_keys=True)] = e["args_text"]
+        for pr in r["parses"]:
+            reind[pr["value"]] = pr["key"]
+            if "sig" in pr:
+                sigs[json.dumps(pr["sig"]["args"], sort_keys=True)] = pr["args_text"]
+    sig_items = sorted(sigs.items())
+    unp_out = core.model_batch([{"op": "c07.unparse_args", "args": json.loads(a)} for a, _ in sig_items])
+    re_items = sorted(reind.items())
+    re_out = core.model_batch([{"op": "c07.reindent", "s": v} for v, _ in re_items])
+
+    # ---- correspondence ---------------------------------------------------------------------------------------------
+    n_dis = {"splice": 0, "trace": 0, "ast": 0, "unparse_args": 0, "reindent": 0}
+    for k, m in zip(splice_idx, splice_out):
+        c, r = cases[k], res[k]
+        prints = [e[1] for e in r["trace"] if e[0] == "print"]
+        if "error" in m:
+            ok = False
+        elif r["splice_error"]:
+            ok = m.get("raises") == r["splice_error"] and m.get("log") == prints
+        else:
+            ok = m.get("nodes") == r["nodes_after"] and m.get("log") == prints
+        if not ok:
+            n_dis["splice"] += 1
+            chk.disagreement("C07 correspondence: DocTransCst.doctransifyLoop vs doctransify_cst (nodes, debug lines, exception)",
+                             {"src": c["src"][:3000], "cfg": [c["fmt"], c["ta"], c["nww"]]},
+                             {"raises": r["splice_error"], "out": "".join(n["value"] for n in (r["nodes_after"] or []))[:1500], "log": prints[:10]},
+                             {"raises": m.get("raises"), "out": (m.get("out") or "")[:1500], "log": (m.get("log") or [])[:10], "error": m.get("error")})
+    for k, m in zip(usable, trace_out):
+        c, r = cases[k], res[k]
+        want_res = "ok" if r["error"] is None else "raises:" + r["error"]
+        want_after = r["after"] if r["after"] is not None else ""
+        ok = "error" not in m and m.get("trace") == r["trace"] and m.get("result") == want_res and m.get("file_after") == want_after
+        if not ok:
+            n_dis["trace"] += 1
+            chk.disagreement("C07 correspondence: DocTransCst.doctrans effect trace / written bytes vs cdd.compound.doctrans.doctrans",
+                             {"src": c["src"][:3000], "cfg": [c["fmt"], c["ta"], c["nww"]], "kind": c["kind"]},
+                             {"trace": [e[:1] + [x[:200] for x in e[1:]] for e in r["trace"]][:12], "result": want_res, "after": want_after[:1500]},
+                             {"trace": [e[:1] + [x[:200] for x in e[1:]] for e in m.get("trace", [])][:12], "result": m.get("result"), "after": (m.get("file_after") or "")[:1500],
+                              "error": m.get("error")})
+    for (k, q), m in zip(ast_reqs, ast_out):
+        if "error" in m or m.get("module") != res[k]["new_ast"]:
+            n_dis["ast"] += 1
+            chk.disagreement("C07 correspondence: DocTransAst.docTrans vs DocTrans(...).visit (flat AST JSON)",
+                             {"src": cases[k]["src"][:3000], "cfg": [cases[k]["fmt"], cases[k]["ta"], cases[k]["nww"]]},
+                             json.dumps(res[k]["new_ast"])[:1500], json.dumps(m.get("module", m))[:1500])
+    for (a, text), m in zip(sig_items, unp_out):
+        if m.get("r") != text:
+            n_dis["unparse_args"] += 1
+            chk.disagreement("C07 correspondence: unparseArgs vs ast.unparse(arguments)", {"args": json.loads(a)}, text, m.get("r", m))
+    for (v, key), m in zip(re_items, re_out):
+        if m.get("r") != key:
+            n_dis["reindent"] += 1
+            chk.disagreement("C07 correspondence: reindentWithPass vs reindent_block_with_pass_body", {"value": v}, key, m.get("r", m))
+    chk.oblige("correspondence doctransifyLoop = doctransify_cst on %d splices" % len(splice_idx), "correspondence", n_dis["splice"] == 0, "%d disagreements" % n_dis["splice"])
+    chk.oblige("correspondence doctrans effect trace + written bytes on %d runs" % len(usable), "correspondence", n_dis["trace"] == 0, "%d disagreements" % n_dis["trace"])
+    chk.oblige("correspondence docTrans (flat AST) = DocTrans.visit on %d modules" % len(ast_reqs), "correspondence", n_dis["ast"] == 0, "%d disagreements" % n_dis["ast"])
+    chk.oblige("correspondence unparseArgs = ast.unparse(arguments) on %d signatures" % len(sig_items), "correspondence", n_dis["unparse_args"] == 0,
+               "%d disagreements" % n_dis["unparse_args"])
+    chk.oblige("correspondence reindentWithPass on %d headers" % len(re_items), "correspondence", n_dis["reindent"] == 0, "%d disagreements" % n_dis["reindent"])
+
+    # ---- the property's oracle on the real files; witnesses ---------------------------------------------------------------
+    from collections import Counter
+
+    kinds, outcomes, feats, cfgs, errs, change_kinds = Counter(), Counter(), Counter(), Counter(), Counter(), Counter()
+    witness_sigs = {}
+    for c, r in zip(cases, res):
+        kinds[c["kind"]] += 1
+        cfgs["%s/%s/%s" % (c["fmt"], "ta" if c["ta"] else "no-ta", "nowrap" if c["nww"] else "wrap")] += 1
+        for f in c["feats"]:
+            feats[f] += 1
+        changed = r["after"] != c["src"]
+        outcomes["raised-in-cst-stage" if (r["error"] and r["entered"]) else "raised-before-cst-stage" if r["error"] else "rewritten" if changed else "unchanged"] += 1
+        if r["error"]:
+            errs[r["error"] + ("@cst" if r["entered"] else "@ast")] += 1
+        if r.get("nodes_after") is not None:
+            for ch in align(r["nodes_before"], r["nodes_after"], r["parses"]):
+                change_kinds[ch["what"]] += 1
+        chk.count((c["src"], c["fmt"], c["ta"], c["nww"]), nontrivial=bool(changed or (r["error"] and r["entered"])))
+        if changed and len(c["src"]) < 260 and c["kind"] == "structured":
+            chk.sample({"cfg": [c["fmt"], c["ta"], c["nww"]], "before": c["src"], "after": r["after"]})
+        fails = oracle(c["src"], r)
+        if c["kind"] == "witness":
+            witness_sigs[c["wid"]] = (fails, r)
+        for sig, text in fails:
+            chk.failure(sig, "doctrans(%s, type_annotations=%s, no_word_wrap=%s): %s" % (c["fmt"], c["ta"], c["nww"], text),
+                        {"case": {k: c[k] for k in ("src", "fmt", "ta", "nww") if k in c} | ({"missing": True} if c.get("missing") else {}), "after": r["after"], "error": r["error"]})
+    # witnesses: the Lean witnesses' outputs and the known findings' inputs, re-verified on the real code
+    stale = []
+    for wid, fids, src, cfg, hdr_line in WITNESSES:
+        fails, r = witness_sigs[wid]
+        if hdr_line is not None:
+            got = (r["after"] or "").split("\n")
+            okw = hdr_line in got
+            chk.oblige("witness %s: real output has the header line %r (as the Lean witness)" % (wid, hdr_line), "witness", okw, "got %r" % got[:3])
+        got_ids = set()
+        for sg, _ in fails:
+            for it in chk.kf.items:
+                if all(sg.get(k) == v for k, v in it["match"].items()):
+                    got_ids.add(it["id"])
+        for fid in fids:
+            if fid not in got_ids:
+                stale.append(fid)
+        if wid == "w-stub-atomic":
+            chk.oblige("witness w-stub-atomic: the CST stage raises and the file is byte-identical", "witness",
+                       r["error"] == "AttributeError" and r["entered"] and r["after"] == src, "error=%s entered=%s" % (r["error"], r["entered"]))
+    for fid in stale:
+        chk.notes.append("finding %s: its witness no longer fails on the real code (stale)" % fid)
+    chk.coverage.update({"input_kinds": dict(kinds), "outcomes": dict(outcomes), "configs": dict(cfgs), "features": dict(feats), "errors": dict(errs),
+                         "cst_changes": dict(change_kinds), "splices_compared": len(splice_idx), "ast_level_compared": len(ast_reqs),
+                         "signatures_compared": len(sig_items), "stale_findings": stale})
+    return chk.finish("inputs: generated modules (functions, async functions, methods, nested definitions, classes; defaults, annotations, *args, **kwargs, "
+                      "keyword-only, positional-only, multi-line headers, decorators with parentheses, return annotations with parentheses, stubs, three docstring "
+                      "styles or none, comments, 2-space / tab / 4-space bodies) x 12 configurations; failure injection in the CST stage; malformed files; "
+                      "non-trivial = the file was rewritten or the CST stage raised; distinct by (source, configuration)")
 
 
 def replay(path: str) -> int:
-    raise core.HarnessError("not finished")
+    d = json.loads(Path(path).read_text())
+    rp = d.get("replay") or {}
+    c = rp.get("case")
+    if not c:
+        print("replay: this file records a broken proof obligation / correspondence, there is no single input to re-run:")
+        for b in d.get("no_longer_checks", d.get("broken", []))[:5]:
+            print("  -", b.get("name"), (b.get("detail") or "")[:300])
+        return 1
+    import cdd.class_.parse  # noqa: F401
+
+    r = impl_one(c)
+    r["missing"] = bool(c.get("missing"))
+    fails = oracle(c["src"], r)
+    print("replay: doctrans(%s, type_annotations=%s, no_word_wrap=%s) on\n%s" % (c["fmt"], c["ta"], c["nww"], c["src"]))
+    print("-> error=%s\n%s" % (r["error"], r["after"]))
+    for sig, text in fails:
+        print("FAIL", json.dumps(sig), text)
+    if not fails:
+        print("property holds on this input")
+    return 1 if fails else 0
